@@ -17,9 +17,10 @@ ASSUMPTIONS = [
     'cell ids are inside the structure (cid < n_cells, octant < 8, n < 2^I): holds on every generated cloud, checked per run',
     'inputs the search structures are not defined for are skipped: >= leaf_max coincident points (octrees), '
     'zero x/y extent (CellIndexing), a zero-extent cloud in 1D/2D (linked list; finding C17:ll-coincident-lowdim)',
-    'models the REPAIRED spatially_order_particles (proposed_fixes/C17-reorder-align.diff)',
+    'models spatially_order_particles as repaired by /repo commit a3ee3a5 (proposed_fixes/C17-reorder-align.diff); '
+    'the pinned variant is kept as spatiallyOrderOrig with its counterexample theorem',
 ]
-READY = False
+READY = True
 DESIGN_REF = '6/C17'
 TECHNIQUE = 'Lean 4 proof over a hand-written model + exact correspondence check'
 LEVEL_TEXT = ("Lean 4 theorems over every cell/key/octant assignment, every particle array (any properties, strides, "
@@ -33,4 +34,5 @@ LEVEL_NOTE = ("Trusted: Lean kernel, axioms propext/Classical.choice/Quot.sound;
               "correspondence); the harness's recomputation of cell ids/keys/octants (it reproduces the implementation's "
               "index lists exactly, so it is checked too); cyarray and std::sort modelled. Neighbour exactness after the "
               "update is an oracle test on the real code (C01 proves it), not a theorem here; rounds where the search was "
-              "already inexact before the re-ordering (C01 findings F1/F2) are not counted against C17.")
+              "already inexact before the re-ordering, or is just as inexact with a structure built from scratch on the re-ordered arrays "
+              "(C01 findings F1/F2), are not counted against C17.")
